@@ -192,3 +192,21 @@ def g48():
 
 
 G48 = g48()
+
+
+def with_int_mode(fams, tier):
+    """Lattice (P0) families pass integral coordinates to the library as Python ints: in the
+    quick tier instead of floats (the oblique poses keep floats), in the thorough tier in
+    addition to floats.  The explorer switches mc.lib.MODE on the '#int' suffix."""
+    import copy
+    out = []
+    for f in fams:
+        if f.name.endswith('/P0'):
+            g = copy.copy(f)
+            g.name = f.name + '#int'
+            if tier != 'quick':
+                out.append(f)
+            out.append(g)
+        else:
+            out.append(f)
+    return out
